@@ -159,9 +159,20 @@ func init() {
 			}
 			return "DROP"
 		}
-		v4.WriteString("*filter\n:INPUT DROP\n")
-		for _, l := range d.v4 {
-			fmt.Fprintf(&v4, "-A INPUT -s 10.4.%d.%d -j %s\n", b2i(l.permit), l.n, j(l.permit))
+		// Netspoc dispatches into chains of its own: a permitting line may
+		// also be a jump to a user-defined chain that accepts.
+		v4.WriteString("*filter\n:INPUT DROP\n:c1 -\n:c2 -\n-A c1 -j ACCEPT\n-A c2 -p tcp -j ACCEPT\n")
+		jumps := false
+		for i, l := range d.v4 {
+			target := j(l.permit)
+			if l.permit && rapid.IntRange(0, 2).Draw(rt, fmt.Sprintf("jump%d", i)) == 0 {
+				target = rapid.SampledFrom([]string{"c1", "c2"}).Draw(rt, fmt.Sprintf("chain%d", i))
+				jumps = true
+			}
+			fmt.Fprintf(&v4, "-A INPUT -s 10.4.%d.%d -j %s\n", b2i(l.permit), l.n, target)
+		}
+		if jumps {
+			ev.Class("c18:linux-permit-by-jump")
 		}
 		if d.hasRaw && len(d.rawPre)+len(d.rawApp) > 0 {
 			raw.WriteString("*filter\n:INPUT DROP\n")
